@@ -281,3 +281,7 @@ def run(ctx):
     from .kernels import gdod_clause, run_c03_flags, guarded_clause
     guarded_clause(ctx, "C05-d", site[2].path, "generalized-dod", lambda: gdod_clause(ctx, "C05-d", site[2]))
     run_c03_flags(ctx, "C05-d")
+    if ctx.cfg == "default":
+        from ..fixtures import detectors_alive
+        ctx.rule("C05-z", "positive examples: ambient-callee and hash-order detectors fire on fixtures/")
+        detectors_alive(ctx, "C05-z", {"denied", "hash"})
